@@ -274,6 +274,16 @@ Theorem clear_keeps_alignment : forall g n xs0 ys j,
 Proof. exact clear_keeps_alignment_lemma. Qed.
 Print Assumptions clear_keeps_alignment.
 
+(* a clear that also emptied the deque would make the pair behave exactly as a new one, after any
+   history of steps, resets and clears (model of a possible change of clear(); the harness observes
+   which of the two the code does) *)
+Theorem clear_all_is_fresh : forall info n c ops ys,
+  let s := op_run info n c (ops ++ OClearAll :: map OStep ys) in
+  let f := pair_run info n c ys in
+  win s = win f /\ nbuf s = nbuf f /\ mem s = mem f.
+Proof. exact clear_all_fresh. Qed.
+Print Assumptions clear_all_is_fresh.
+
 (* ---------- non-vacuity ---------- *)
 (* two environments, n = 3, capacity 4 (both buffers wrap): env 1 ends at step 1, env 0 at step 3 *)
 Definition ex_stream : list vtr :=
